@@ -109,6 +109,21 @@ func themeTxnTrunc(r *Run, rng *rand.Rand) *routerGen {
 	return g
 }
 
+// Truncate with snapshots held across it: the roots slice (one entry per method) is rebuilt by Truncate and by every
+// root change; custom methods are removed from it, standard ones emptied in place of a fresh node
+func themeTxnTruncSnap(r *Run, rng *rand.Rand) *routerGen {
+	g := baseGen([]string{"/a"}, []string{"GET", "FOO", "BAR"})
+	g.Txns, g.Snaps, g.MaxOps = 1, 1, 2
+	g.Kinds = []string{"Handle"}
+	g.Trunc = [][]int{{}, {2}, {3}, {2, 3}, {1}}
+	if rng.Intn(2) == 0 {
+		g.Trunc = [][]int{{}, {3}, {2}, {3, 2}, {1, 3}}
+	}
+	g.Settled = []string{"Len"}
+	stdProbes(g, rng, 4)
+	return g
+}
+
 func txnBase(pool []string, kinds []string, maxOps, snaps int) *routerGen {
 	g := baseGen(pool, []string{"GET"})
 	g.Txns, g.Snaps, g.MaxOps = 1, snaps, maxOps
@@ -183,7 +198,7 @@ func checkC07(r *Run) {
 // C03 - a published routing state never changes.
 func checkC03(r *Run) {
 	if only("themes") {
-		runThemes(r, 3, themeTxnSibling, themeTxnNested, themeTxnFanout)
+		runThemes(r, 3, themeTxnSibling, themeTxnNested, themeTxnFanout, themeTxnTruncSnap)
 	}
 	if only("routerd2") {
 		runRouterD2(r, 3)
